@@ -193,6 +193,48 @@ func (w *Walker) correlatedConds(c *FCtx) []*Atom {
 		}
 		res = append(res, first[pos.Key()])
 	}
+	// a decision taken inside an unexported helper that this function calls (a "decide" function whose paths are
+	// correlated by one of its own tests) is a case split of the caller too: the helper's summary is then specialised
+	// to each case (context-sensitive summaries)
+	if !c.noCalleeSplits && len(res) < 3 {
+		seenKey := map[string]bool{}
+		for _, a := range res {
+			seenKey[a.Key()] = true
+		}
+		for _, b := range c.Fn.Blocks {
+			for _, in := range b.Instrs {
+				call, ok := in.(*ssa.Call)
+				if !ok || len(res) >= 3 {
+					continue
+				}
+				g := call.Call.StaticCallee()
+				if g == nil || g.Blocks == nil || !inLibraryScope(funcPkgPath(g)) || isSpecTypesPkg(funcPkgPath(g)) || g == c.Fn {
+					continue
+				}
+				if (g.Object() != nil && g.Object().Exported()) || w.A.effectFree[g] || w.A.isInlinable(g) {
+					continue
+				}
+				env := bindEnv(w.A, g, c.args(call.Call.Args), nil)
+				for _, p := range g.Params {
+					if sg := w.A.singletonOf(p.Type()); sg != "" {
+						env[p] = This(sg)
+					}
+				}
+				gc := w.A.NewFCtx(g, env, 0)
+				gc.noCalleeSplits = true
+				for _, a := range w.correlatedConds(gc) {
+					if seenKey[a.Key()] || len(res) >= 3 {
+						continue
+					}
+					if a.Mentions(func(t *Term) bool { return t.Op == "phi" || t.Op == "unk" || t.Op == "param" || isSelectIndex(t) }) {
+						continue
+					}
+					seenKey[a.Key()] = true
+					res = append(res, a)
+				}
+			}
+		}
+	}
 	if len(res) > 3 {
 		res = res[:3]
 	}
